@@ -4,6 +4,7 @@ from . import c20
 
 RULE = ('one reading session (optimistic mostly; also optimistic=False / serializable) of 4-12 steps re-reading '
         'attributes and collections through every refresh path (get, select, select one, load(), prefetch, navigation, '
+        'locking fetches get_for_update / select().for_update() of rows read before without lock, '
         'batch loads, iteration/len/count()/is_empty()/in) against 1-2 writer threads committing updates, deletes, '
         'moves between owners, new items and many-to-many link changes; pre-emption at DB-API calls and between steps; '
         'oracle over the reader history: per (object, non-volatile attribute) and per collection once observed fully '
@@ -18,7 +19,8 @@ COMPONENTS = {
 
 R_STEPS = [('get', 2), ('attr', 6), ('tick', 1), ('item_attr', 3), ('sel', 2), ('sel_items', 2), ('sel_one', 1),
            ('load', 1), ('prefetch', 1), ('items_iter', 3), ('items_len', 2), ('items_count', 1), ('items_empty', 1),
-           ('items_in', 1), ('tags_iter', 2), ('tags_len', 1), ('nav', 2), ('card', 2), ('card_acct', 2), ('own_write', 2), ('flush', 1), ('commit', 1)]
+           ('items_in', 1), ('tags_iter', 2), ('tags_len', 1), ('nav', 2), ('card', 2), ('card_acct', 2), ('own_write', 2), ('flush', 1), ('commit', 1),
+           ('lock_get', 2), ('lock_sel', 1)]
 W_STEPS = [('upd', 5), ('relink', 2), ('upd_item', 2), ('move', 3), ('del_item', 1), ('new_item', 1), ('tag_add', 1), ('tag_remove', 2)]
 
 
@@ -52,7 +54,8 @@ def gen_case(seed, i, tier, with_faults=False):
             first = [st for st in steps if st[0] not in ('own_write', 'flush', 'commit')][:r.randint(1, 4)]
             mid = []
             for _ in range(r.randint(0, 3)):
-                m = r.weighted([('own_write', 3), ('commit', 3), ('flush', 1), ('sel', 1), ('get', 1)])
+                m = r.weighted([('own_write', 3), ('commit', 3), ('flush', 1), ('sel', 1), ('get', 1), ('lock_get', 2),
+                                ('lock_sel', 1)])
                 mid.append([m, hot if r.chance(0.8) else r.below(3), r.below(10)])
             steps = first + mid + [list(st) for st in first]
         elif r.chance(0.2):
